@@ -62,6 +62,7 @@ def mon (st : St) (op : List String) (outs : List (List String)) : St × List St
                             | "msubmit" :: _ => 0
                             | ["start"] => 0
                             | "startfail" :: _ => 0
+                            | "startbad" :: _ => 0
                             | _ => st3.sinceMiner + 1) }
     let failed := outs.any (fun o => o.take 2 = ["factory", "dial"] && o.getLast? == some "refused")
     -- clauses
@@ -111,6 +112,8 @@ def mon (st : St) (op : List String) (outs : List (List String)) : St × List St
     let c8 := match op with
       | "startfail" :: _ => if nowExited ∧ live = [] ∧ listed = "0" then [] else
           [s!"C06 a pool failure during the first handshake left the miner hanging: live={liveTxt} sched={sched} listed={listed}"]
+      | "startbad" :: _ => if nowExited ∧ live = [] ∧ listed = "0" then [] else
+          [s!"C13 a peer that is no stratum miner was not released: live={liveTxt} sched={sched} listed={listed}"]
       | _ => []
     let c9 := if !nowExited ∧ st4.sinceMiner > st.idleMs + 2000 then
       [s!"C13 the miner sent nothing for {st4.sinceMiner} ms and its connection was not closed (configured idle time {st.idleMs} ms)"] else []
